@@ -196,7 +196,11 @@ def run(ctx, model_ok=True, proofs_broken=False):
             elif t[1] == "norm_uri":
                 target = unhx(t[3])
                 kv = parse_kv(got)
-                # the generated targets are http://h:<port>/… or http://[::1]:<port>/…
+                # the port-rule ground truth applies to the generated targets http://h:<port>/… or http://[::1]:<port>/… only
+                # (targets from the distilled corpus are corresponded, not judged here)
+                import re as _re
+                if t[2] != "-" or not _re.match(rb"^http://(h|\[::1\]):[^/]*/", target):
+                    continue
                 auth = target[7:target.index(b"/", 7)]
                 ptxt = auth.split(b"]:", 1)[1] if auth.startswith(b"[") else auth.split(b":", 1)[1]
                 want = port_rule(ptxt)
